@@ -941,6 +941,8 @@ class Evaluator:
             return ("ext", v.dotted)
         if isinstance(v, Num):
             return ("sym", str(v.expr))
+        if isinstance(v, OpaqueV) and v.what == "bytes":
+            return ("bytes", v.payload)
         raise Unsupported(f"unhashable/unsupported key {v!r}")
 
     def concrete_int(self, v):
